@@ -310,8 +310,16 @@ Definition protect (mki_index : Z) : M Z :=
   ret (u64 (enc_start + enc_len + tag_len + s_mki_size st)).
 
 (* ======================================================================= *)
-(* srtp_unprotect                                                           *)
-Definition unprotect : M Z :=
+(* srtp_unprotect = everything up to and including the authentication check
+   (unprotect_pre: reads the session, writes only the output buffer), followed by
+   the effects of an accepted packet (unprotect_post).                       *)
+Record upre := {
+  u_pkt : bytes; u_ssrc : Z; u_ref : sref; u_est : Z; u_delta : Z; u_adv : bool;
+  u_ki : Z; u_k : skeys; u_cs : cstate; u_iv : bytes;
+  u_enc_start : Z; u_enc_len : Z; u_inuse : bool; u_inplace : bool
+}.
+
+Definition unprotect_pre : M upre :=
   b <- get_b ;;
   let len := b_len b in
   let pkt := take (zn len) (cur_src b) in
@@ -373,16 +381,26 @@ Definition unprotect : M Z :=
             (if beqb (take (zn tag_len) (tmp_tag ++ zeros (zn tag_len))) t then ret tt else exit_with st_auth_fail) ;;;
             ret (fst pre)
           else ret cs0) ;;
-  charge_key r0 ki ;;;
+  ret {| u_pkt := pkt; u_ssrc := ssrc; u_ref := r0; u_est := est; u_delta := delta; u_adv := adv;
+         u_ki := ki; u_k := k; u_cs := cs1; u_iv := iv;
+         u_enc_start := enc_start; u_enc_len := enc_len; u_inuse := inuse; u_inplace := inplace |}.
+
+Definition unprotect_post (u : upre) : M Z :=
+  b <- get_b ;;
+  let pkt := u_pkt u in let k := u_k u in
+  let r0 := u_ref u in let enc_start := u_enc_start u in let enc_len := u_enc_len u in
+  let inuse := u_inuse u in let inplace := u_inplace u in
+  charge_key r0 (u_ki u) ;;;
+  st <- get_stream r0 ;;
   (match k_xtn_c k with
-   | Some xk => if hdr_x pkt =? 1 then process_xtn st pkt (cipher_start xk iv) else ret tt
+   | Some xk => if hdr_x pkt =? 1 then process_xtn st pkt (cipher_start xk (u_iv u)) else ret tt
    | None => ret tt
    end) ;;;
   cs2 <- (if inuse then
-            if inplace then cryptex_adjust pkt ;;; ret cs1
-            else if hdr_cc pkt =? 0 then ret cs1
-            else crypt_dst_region cs1 octets_in_rtp_header_c (4 * hdr_cc pkt)
-          else ret cs1) ;;
+            if inplace then cryptex_adjust pkt ;;; ret (u_cs u)
+            else if hdr_cc pkt =? 0 then ret (u_cs u)
+            else crypt_dst_region (u_cs u) octets_in_rtp_header_c (4 * hdr_cc pkt)
+          else ret (u_cs u)) ;;
   (if negb (Z.land (s_rtp_serv st) sec_serv_conf_c =? 0) then
      d <- rd_src enc_start enc_len ;;
      let '(s, _, o) := cipher_encrypt cs2 d in
@@ -399,8 +417,10 @@ Definition unprotect : M Z :=
      else ret tt
    else ret tt) ;;;
   check_direction r0 dir_srtp_receiver_c ;;;
-  r <- materialize r0 ssrc ;;
+  r <- materialize r0 (u_ssrc u) ;;
   st2 <- get_stream r ;;
-  (if adv then put_stream r (commit_advance st2 est)
-   else put_stream r (set_pending (set_rdbx st2 (rdbx_add (s_rdbx st2) delta)) 0)) ;;;
+  (if u_adv u then put_stream r (commit_advance st2 (u_est u))
+   else put_stream r (set_pending (set_rdbx st2 (rdbx_add (s_rdbx st2) (u_delta u))) 0)) ;;;
   ret (u64 (enc_start + enc_len)).
+
+Definition unprotect : M Z := u <- unprotect_pre ;; unprotect_post u.
